@@ -23,7 +23,7 @@ SRC_COLLS = "rpyc/lib/colls.py"
 SRC_LIB = "rpyc/lib/__init__.py"
 SRC_NETREF = "rpyc/core/netref.py"
 SRC_CONSTS = "rpyc/core/consts.py"
-PRELUDE = "From V Require Import lib.Base model.Attr model.Hostile.\nOpen Scope Z_scope.\n"
+PRELUDE = "From V Require Import lib.Base model.Attr model.Hostile.\nFrom V Require model.Vinegar.\nOpen Scope Z_scope.\n"
 
 TRIPLES = {("_rpyc_getattr", "allow_getattr", "getattr"): "PGet", ("_rpyc_setattr", "allow_setattr", "setattr"): "PSet",
            ("_rpyc_delattr", "allow_delattr", "delattr"): "PDel"}
@@ -368,6 +368,16 @@ def msg_ladder(cls, consts):
     acts = {"self._dispatch_request(seq, args)": "DRequest",
             "obj = self._unbox(args)\nself._seq_request_callback(msg, seq, False, obj)": "DReply",
             "obj = self._unbox_exc(args)\nself._seq_request_callback(msg, seq, True, obj)": "DException"}
+    # the guarded form: both response kinds go through _dispatch_response, whose shape is checked here
+    try:
+        dr = find_func(cls, "_dispatch_response")
+    except Unrecognised:
+        dr = None
+    if dr is not None:
+        if [a.arg for a in dr.args.args] != ["self", "msg", "seq", "is_exc", "args"] or "\n".join(u(s) for s in clean(dr.body)) != DISPATCH_RESPONSE:
+            raise Unrecognised("_dispatch_response body")
+        acts["self._dispatch_response(msg, seq, False, args)"] = "DReplyG"
+        acts["self._dispatch_response(msg, seq, True, args)"] = "DExceptionG"
     while True:
         body = "\n".join(u(s) for s in st.body)
         if body not in acts:
@@ -380,6 +390,15 @@ def msg_ladder(cls, consts):
             raise Unrecognised("_dispatch: final else")
         break
     return out
+
+
+DISPATCH_RESPONSE = """try:
+    obj = self._unbox_exc(args) if is_exc else self._unbox(args)
+except EOFError:
+    raise
+except Exception:
+    is_exc, obj = (True, sys.exc_info()[1])
+self._seq_request_callback(msg, seq, is_exc, obj)"""
 
 
 def unbox_ladder(cls, consts):
@@ -471,10 +490,28 @@ def getitem_plain(repo):
 
 
 def serve_all_closes(cls):
+    """serve_all: the loop, the two handlers that only filter which errors are re-raised, and close() in `finally` whatever happens"""
     fn = find_func(cls, "serve_all")
     b = clean(fn.body)
-    return len(b) == 1 and isinstance(b[0], ast.Try) and [u(s) for s in b[0].finalbody] == ["self.close()"] \
-        and [u(s) for s in b[0].body] == ["while not self.closed:\n    self.serve(None)"]
+    if not (len(b) == 1 and isinstance(b[0], ast.Try) and [u(s) for s in b[0].finalbody] == ["self.close()"]
+            and [u(s) for s in b[0].body] == ["while not self.closed:\n    self.serve(None)"] and not b[0].orelse):
+        return False
+    hs = [(u(h.type) if h.type is not None else None, h.name, "\n".join(u(s) for s in h.body)) for h in b[0].handlers]
+    return hs == [("(socket.error, select_error, IOError)", None, "if not self.closed:\n    raise"), ("EOFError", None, "pass")]
+
+
+def class_lookup_mode(repo):
+    """how netref.class_factory reads the peer-named class out of the module it found in sys.modules"""
+    fn = find_func(parse(repo, SRC_NETREF), "class_factory")
+    found = []
+    for node in ast.walk(fn):
+        if isinstance(node, ast.Assign) and len(node.targets) == 1 and u(node.targets[0]) == "_class":
+            found.append(u(node.value))
+    if found == ["getattr(_module, _class_name, None)"]:
+        return "Vinegar.LkGetattr"
+    if found == ["getattr(_module, '__dict__', {}).get(_class_name)"]:
+        return "Vinegar.LkDict"
+    raise Unrecognised("class_factory: class lookup %r" % (found,))
 
 
 # ---------------------------------------------------------------------- constant introspection names
@@ -532,7 +569,8 @@ def facts(repo):
     consts = consts_table(repo)
     return {"handlers": translate_handlers(cls, consts), "dispatch": dispatch_table(cls, consts), "msg_ladder": msg_ladder(cls, consts),
             "unbox_ladder": unbox_ladder(cls, consts), "box_ladder": box_ladder(cls, consts), "request_steps": request_steps(cls),
-            "getitem_plain": getitem_plain(repo), "serve_all_closes": serve_all_closes(cls), "const_names": const_names(repo, cls)}
+            "getitem_plain": getitem_plain(repo), "serve_all_closes": serve_all_closes(cls), "const_names": const_names(repo, cls),
+            "class_lookup_mode": class_lookup_mode(repo)}
 
 
 def translate(repo):
@@ -564,6 +602,7 @@ def translate(repo):
     guarded("request_steps", lambda: typed("request_steps", "list string", coq_list(coq_string(s) for s in request_steps(cls))))
     guarded("getitem_plain", lambda: typed("getitem_plain", "bool", coq_bool(getitem_plain(repo))))
     guarded("serve_all_closes", lambda: typed("serve_all_closes", "bool", coq_bool(serve_all_closes(cls))))
+    guarded("class_lookup_mode", lambda: typed("class_lookup_mode", "Vinegar.lookup_mode", class_lookup_mode(repo)))
     guarded("const_names", lambda: typed("const_names", "list string", coq_list(coq_string(s) for s in const_names(repo, cls))))
 
     def shapes():
